@@ -237,6 +237,48 @@ def _per_block_task(task):
     return hyp_task(one_block_cases(task['block'], task['max_len']), run_case, task['n'], 'C01:' + task['block'])
 
 
+def _small_cfg_task(task):
+    """every configuration of a catalogue block with all widths <= W (flags and optional ports in every combination),
+    three edge input vectors each"""
+    cat = ARITH if task['block'] in ARITH else LOGIC
+    e = cat[task['block']]
+    evals = nt = 0
+    fails = {}
+    discards = {}
+    for cfg in task['cfgs']:
+        try:
+            inw = e.inw(cfg)
+        except Exception:
+            continue
+        vecs = [[mask(w) for w in inw], [1 for w in inw], [(mask(w) >> 1) ^ (k & 1) for k, w in enumerate(inw)]]
+        case = {'kind': 'block', 'block': task['block'], 'cfg': cfg, 'inputs': vecs}
+        r = run_block(case)
+        if r['discard']:
+            discards[r['discard']] = discards.get(r['discard'], 0) + 1
+            continue
+        evals += 1
+        nt += 1 if r['nt'] else 0
+        if r['fail']:
+            sg = r['fail']['sig']
+            if sg not in fails:
+                fails[sg] = {'sig': sg, 'msg': r['fail']['msg'], 'count': 1, 'case': case}
+            else:
+                fails[sg]['count'] += 1
+    return {'evals': evals, 'nt': nt, 'cls': {'small_cfgs:' + task['block']: evals}, 'discards': discards, 'fails': list(fails.values()), 'samples': []}
+
+
+def _small_cfg_tasks(W):
+    tasks = []
+    for cat in (ARITH, LOGIC):
+        for n in sorted(cat):
+            if n.startswith('hlp.'):
+                continue
+            cfgs = list(cat[n].small(W))
+            for i in range(0, len(cfgs), 80):
+                tasks.append({'block': n, 'cfgs': cfgs[i:i + 80]})
+    return tasks
+
+
 def all_block_names():
     return [n for n in sorted(list(ARITH) + list(LOGIC)) if not n.startswith('hlp.')] + sorted(c09.BLOCKS)
 
@@ -492,6 +534,8 @@ def strata(tier):
     return [
         {'name': 'every_block', 'kind': 'enum', 'exhaustive': False, 'run_task': _per_block_task,
          'tasks': [{'block': n, 'n': 14 if q else 300, 'max_len': 20 if q else 60} for n in all_block_names()]},
+        {'name': 'every_small_configuration', 'kind': 'enum', 'exhaustive': False, 'run_task': _small_cfg_task,
+         'tasks': _small_cfg_tasks(3 if q else 4)},
         {'name': 'bodies_and_emulation_blocks', 'kind': 'hyp', 'examples': 300 if q else 6000,
          'strategy': lambda: corpus_cases(20 if q else 60), 'run_case': run_case},
         {'name': 'two_instances_of_one_class', 'kind': 'hyp', 'examples': 400 if q else 8000,
